@@ -95,11 +95,20 @@ PatternField(pv, f) ==
    ELSE Field("3", f) # <<>> \/ (pv = "3.0" /\ f \in {"PR:U","MPR:U"})
 RECURSIVE Increasing(_,_)
 Increasing(q, k) == IF k >= Len(q) THEN TRUE ELSE (q[k] < q[k+1] /\ Increasing(q, k+1))
+\* number of characters that one original character occupies at position k of an escaped string; 0 if there is none
+\* or it is a line feed (the '.' of a regular expression does not match it)
+EscEnd(s, k) == IndexFrom(s, "}", k)
+OneCharLen(s, k) == IF k > Len(s) THEN 0
+                    ELSE IF Ch(s,k) # "{" THEN 1
+                    ELSE IF EscEnd(s, k) = 0 THEN 0
+                    ELSE IF SubSeq(s, k, EscEnd(s, k)) = "{10}" THEN 0 ELSE EscEnd(s, k) - k + 1
 OfficialPattern(pv, s) ==
    IF pv = "2" THEN LET fs == Split(s, "/") IN \A k \in 1..Len(fs) : PatternField("2", fs[k])
    ELSE IF pv \in {"3.0","3.1"} THEN
-        /\ Len(s) >= 10 /\ SubSeq(s,1,6) = "CVSS:3" /\ Ch(s,8) = (IF pv = "3.0" THEN "0" ELSE "1") /\ Ch(s,9) = "/"
-        /\ LET fs == Split(DropPrefix(s,9), "/") IN \A k \in 1..Len(fs) : PatternField(pv, fs[k])
+        /\ Len(s) >= 10 /\ SubSeq(s,1,6) = "CVSS:3"
+        /\ LET w == OneCharLen(s, 7) IN        \* the unescaped '.' of the official pattern: any one character
+           /\ w > 0 /\ Len(s) >= 8 + w /\ Ch(s,7+w) = (IF pv = "3.0" THEN "0" ELSE "1") /\ Ch(s,8+w) = "/"
+           /\ LET fs == Split(DropPrefix(s,8+w), "/") IN \A k \in 1..Len(fs) : PatternField(pv, fs[k])
    ELSE /\ StartsWith(s, "CVSS:4.0/")
         /\ LET fs == Split(DropPrefix(s,9), "/") IN
            /\ \A k \in 1..Len(fs) : PatternField("4", fs[k])
